@@ -7,6 +7,7 @@ import (
 	"runtime"
 	"runtime/debug"
 	"strconv"
+	"strings"
 	"testing"
 	"time"
 )
@@ -85,15 +86,32 @@ func loadKnown(path, prop string) (out []knownEntry) {
 	return
 }
 
+// globMatch matches s against a pattern in which * stands for any (possibly empty)
+// sequence of characters; every other character is literal.
+func globMatch(pat, s string) bool {
+	parts := strings.Split(pat, "*")
+	if len(parts) == 1 {
+		return pat == s
+	}
+	if !strings.HasPrefix(s, parts[0]) {
+		return false
+	}
+	s = s[len(parts[0]):]
+	for _, p := range parts[1 : len(parts)-1] {
+		i := strings.Index(s, p)
+		if i < 0 {
+			return false
+		}
+		s = s[i+len(p):]
+	}
+	return strings.HasSuffix(s, parts[len(parts)-1])
+}
+
 // isKnown mirrors match_known of the driver: signature glob (a trailing * matches any
 // suffix) and the trigger must have occurred in the run.
 func isKnown(known []knownEntry, sig string, triggers []string) bool {
 	for _, k := range known {
-		ok := k.Signature == sig
-		if n := len(k.Signature); n > 0 && k.Signature[n-1] == '*' {
-			ok = len(sig) >= n-1 && sig[:n-1] == k.Signature[:n-1]
-		}
-		if !ok {
+		if !globMatch(k.Signature, sig) {
 			continue
 		}
 		if k.Trigger == "" {
@@ -159,6 +177,7 @@ func TestWorker(t *testing.T) {
 	}
 	runtime.GOMAXPROCS(1)
 	debug.SetGCPercent(400)
+	curT = t
 	if err := selfTestLatchPeek(); err != nil {
 		fmt.Fprintln(os.Stderr, "SELFTEST-FAIL:", err)
 		os.Exit(2)
@@ -247,31 +266,38 @@ func TestWorker(t *testing.T) {
 			}
 		}
 		if w.viol != nil {
-			v := w.viol
-			rep := ViolationReport{Sig: v.Sig, Detail: v.Detail, Run: run, Trace: st.Trace, Triggers: w.triggerList()}
-			if isKnown(known, v.Sig, rep.Triggers) {
-				rep.Known = true
-				if !knownSeen[v.Sig] {
-					knownSeen[v.Sig] = true
-					res.Violations = append(res.Violations, rep)
+			triggers := w.triggerList()
+			anyKnown := false
+			for vi, v := range append([]*Violation{w.viol}, w.extra...) {
+				rep := ViolationReport{Sig: v.Sig, Detail: v.Detail, Run: run, Trace: st.Trace, Triggers: triggers}
+				if isKnown(known, v.Sig, triggers) {
+					rep.Known = true
+					anyKnown = true
+					if !knownSeen[v.Sig] {
+						knownSeen[v.Sig] = true
+						res.Violations = append(res.Violations, rep)
+					}
+					continue
 				}
-				res.KnownHits++
-				if w.tainted() {
-					res.Stopped = fmt.Sprintf("worker state tainted by %s at run %d", v.Sig, run)
-					res.Next = run + 1
-					res.Tainted = true
-					break
+				if sigs[v.Sig] || replayDir == "" {
+					if replayDir == "" {
+						res.Violations = append(res.Violations, rep)
+					}
+					continue
 				}
-				continue
-			}
-			if !sigs[v.Sig] && replayDir != "" {
 				sigs[v.Sig] = true
 				cs.Expect = v
 				cs.TraceHash = st.Trace
 				if w.sim != nil {
 					cs.Sched = w.sim.Sched
 				}
-				min := minimise(def, cs, 45*time.Second)
+				if w.raceSched != nil {
+					cs.Sched = w.raceSched
+				}
+				min := cs
+				if !def.NoMinimise && vi == 0 {
+					min = minimise(def, cs, 45*time.Second)
+				}
 				rep.Replay = fmt.Sprintf("%s/%s-%s-%d-%d.json", replayDir, prop, sanitize(v.Sig), seed, run)
 				rep.Detail = min.Expect.Detail
 				rep.Trace = min.TraceHash
@@ -280,15 +306,18 @@ func TestWorker(t *testing.T) {
 					fmt.Fprintln(os.Stderr, "cannot write replay:", err)
 					os.Exit(2)
 				}
+				res.Violations = append(res.Violations, rep)
 			}
-			res.Violations = append(res.Violations, rep)
+			if anyKnown {
+				res.KnownHits++
+			}
 			if len(sigs) >= maxViol {
 				res.Stopped = fmt.Sprintf("%d distinct violation signatures found; stopped at run %d", len(sigs), run)
 				res.Next = run + 1
 				break
 			}
 			if w.tainted() {
-				res.Stopped = fmt.Sprintf("worker state tainted by %s at run %d", v.Sig, run)
+				res.Stopped = fmt.Sprintf("worker state tainted by %s at run %d", w.viol.Sig, run)
 				res.Next = run + 1
 				res.Tainted = true
 				break
@@ -382,6 +411,11 @@ func replayFile(def *PropDef, path, out string) int {
 	}
 	r := rr{Got: w.viol, Want: cs.Expect, Trace: w.stats.Trace, WantTrace: cs.TraceHash}
 	r.Reproduced = w.viol != nil && cs.Expect != nil && w.viol.Sig == cs.Expect.Sig && w.stats.Trace == cs.TraceHash
+	for _, ev := range w.extra {
+		if cs.Expect != nil && ev.Sig == cs.Expect.Sig && w.stats.Trace == cs.TraceHash {
+			r.Reproduced = true
+		}
+	}
 	jb, _ := json.Marshal(r)
 	if out != "" {
 		os.WriteFile(out, jb, 0o644)
